@@ -7,15 +7,15 @@ from vlib.rtc.lib import *  # noqa
 from vlib.rtc import hist
 
 RULE = ('random histories (10-60 steps) and all sequences of length 3 over {var, operators, ite, quantify, let, add_expr, '
-        'low/high/succ handles, handle copies, drops in any order, collect_garbage, sifting, reorder-to-order, late declarations, JSON dump + load into the same manager} on '
+        'low/high/succ handles, handle copies (through the manager and by copy.copy), augmented assignments (&=, |=) on a second name of a held Function, drops in any order, collect_garbage, sifting, reorder-to-order, late declarations, JSON dump + load into the same manager} on '
         'dd.autoref with 3-5 variables, dynamic reordering off / on (thresholds 1,2,4,8); after every step: wf(), '
         'ref == in-edges + number of live Function objects for every node, truth table of every live Function; at '
         'the end all handles dropped -> collection leaves only the terminal and BDD.__del__ passes. non-trivial: '
         'history drops a handle before a collection or reordering; distinct = operation sequence prefix.')
 EXHAUSTIVE = {'quick': False, 'thorough': False}
 REQUIRED_COUNTERS = ['steps']
-OPS = ['var', 'build', 'apply', 'ite', 'quant', 'let', 'expr', 'succ', 'copyh', 'drop', 'gc', 'sift', 'order', 'copyout', 'image', 'declare', 'json']
-W = [3, 3, 5, 2, 2, 2, 1, 2, 2, 6, 3, 1, 1, 1, 1, 2, 1]
+OPS = ['var', 'build', 'apply', 'ite', 'quant', 'let', 'expr', 'succ', 'copyh', 'drop', 'gc', 'sift', 'order', 'copyout', 'image', 'declare', 'json', 'iop']
+W = [3, 3, 5, 2, 2, 2, 1, 2, 2, 6, 3, 1, 1, 1, 1, 2, 1, 2]
 
 
 def bounds(tier):
